@@ -1,6 +1,10 @@
 //! Caller-provided metadata buffers, sized exactly and flush against PROT_NONE guard pages.
 //! An out-of-bounds access of the allocator hits a guard page and kills the worker (SIGSEGV).
+//!
+//! With feature `heapbuf` (AddressSanitizer build) or under Miri, every buffer is instead a fresh
+//! heap allocation of exactly the requested size, so that the tool's own bounds checking applies.
 
+use std::cell::RefCell;
 use std::ptr::null_mut;
 
 const PAGE: usize = 4096;
@@ -10,14 +14,26 @@ pub struct Arena {
     base: *mut u8,
     total: usize,
     cap: usize,
+    /// heap mode: the allocation handed out last (freed when the next one is requested)
+    last: RefCell<Option<(*mut u8, usize)>>,
 }
 unsafe impl Send for Arena {}
 unsafe impl Sync for Arena {}
+
+const HEAP: bool = cfg!(any(miri, feature = "heapbuf"));
 
 impl Arena {
     pub fn new(cap: usize) -> Self {
         let cap = cap.next_multiple_of(PAGE).max(PAGE);
         let total = cap + 2 * PAGE;
+        if HEAP {
+            return Self {
+                base: null_mut(),
+                total,
+                cap,
+                last: RefCell::new(None),
+            };
+        }
         #[cfg(not(miri))]
         unsafe {
             let base = libc::mmap(
@@ -32,18 +48,34 @@ impl Arena {
             let base = base as *mut u8;
             assert!(libc::mprotect(base.cast(), PAGE, libc::PROT_NONE) == 0);
             assert!(libc::mprotect(base.add(PAGE + cap).cast(), PAGE, libc::PROT_NONE) == 0);
-            Self { base, total, cap }
+            Self {
+                base,
+                total,
+                cap,
+                last: RefCell::new(None),
+            }
         }
         #[cfg(miri)]
-        {
-            let _ = null_mut::<u8>();
-            let layout = std::alloc::Layout::from_size_align(total, PAGE).unwrap();
-            let base = unsafe { std::alloc::alloc_zeroed(layout) };
-            Self { base, total, cap }
-        }
+        unreachable!()
     }
     pub fn cap(&self) -> usize {
         self.cap
+    }
+    fn heap(&self, size: usize, fill: u8) -> &'static mut [u8] {
+        if let Some((p, n)) = self.last.borrow_mut().take() {
+            heap_free_raw(p, n);
+        }
+        if size == 0 {
+            return heap_buf(0, fill);
+        }
+        // keep the pointer returned by the allocator itself for the later deallocation
+        let layout = std::alloc::Layout::from_size_align(size, 64).unwrap();
+        unsafe {
+            let p = std::alloc::alloc(layout);
+            std::ptr::write_bytes(p, fill, size);
+            *self.last.borrow_mut() = Some((p, size));
+            std::slice::from_raw_parts_mut(p, size)
+        }
     }
     /// A slice of exactly `size` bytes, 64-byte aligned, either ending at the trailing
     /// guard page (`at_end`) or starting right after the leading one.
@@ -54,6 +86,9 @@ impl Arena {
     #[allow(clippy::mut_from_ref)]
     pub unsafe fn slice(&self, size: usize, at_end: bool, fill: u8) -> &'static mut [u8] {
         assert!(size <= self.cap, "arena too small: {size} > {}", self.cap);
+        if HEAP {
+            return self.heap(size, fill);
+        }
         let start = if at_end && size % 64 == 0 {
             PAGE + self.cap - size
         } else {
@@ -65,23 +100,27 @@ impl Arena {
             std::slice::from_raw_parts_mut(p, size)
         }
     }
-    /// Slice at an arbitrary byte offset into the data area (for misalignment / overlap tests)
+    /// Slice at an arbitrary byte offset into the data area (for misalignment / overlap tests).
+    /// Not available in heap mode (returns None).
     #[allow(clippy::mut_from_ref)]
-    pub unsafe fn slice_at(&self, offset: usize, size: usize) -> &'static mut [u8] {
+    pub unsafe fn slice_at(&self, offset: usize, size: usize) -> Option<&'static mut [u8]> {
         assert!(offset + size <= self.cap);
-        unsafe { std::slice::from_raw_parts_mut(self.base.add(PAGE + offset), size) }
+        if HEAP {
+            return None;
+        }
+        Some(unsafe { std::slice::from_raw_parts_mut(self.base.add(PAGE + offset), size) })
     }
 }
 impl Drop for Arena {
     fn drop(&mut self) {
-        #[cfg(not(miri))]
-        unsafe {
-            libc::munmap(self.base.cast(), self.total);
+        if let Some((p, n)) = self.last.borrow_mut().take() {
+            heap_free_raw(p, n);
         }
-        #[cfg(miri)]
-        unsafe {
-            let layout = std::alloc::Layout::from_size_align(self.total, PAGE).unwrap();
-            std::alloc::dealloc(self.base, layout);
+        #[cfg(not(miri))]
+        if !self.base.is_null() {
+            unsafe {
+                libc::munmap(self.base.cast(), self.total);
+            }
         }
     }
 }
@@ -91,13 +130,32 @@ pub fn heap_buf(size: usize, fill: u8) -> &'static mut [u8] {
     use std::alloc::{Layout, alloc};
     if size == 0 {
         // aligned dangling
-        return unsafe { std::slice::from_raw_parts_mut(64 as *mut u8, 0) };
+        return unsafe { std::slice::from_raw_parts_mut(std::ptr::without_provenance_mut(64), 0) };
     }
     let layout = Layout::from_size_align(size, 64).unwrap();
     unsafe {
         let p = alloc(layout);
         std::ptr::write_bytes(p, fill, size);
         std::slice::from_raw_parts_mut(p, size)
+    }
+}
+/// Heap buffer together with the allocator's own pointer (to free it later without going
+/// through a reference that the user of the slice may have invalidated)
+pub fn heap_raw(size: usize, fill: u8) -> ((*mut u8, usize), &'static mut [u8]) {
+    if size == 0 {
+        return ((null_mut(), 0), heap_buf(0, fill));
+    }
+    let layout = std::alloc::Layout::from_size_align(size, 64).unwrap();
+    unsafe {
+        let p = std::alloc::alloc(layout);
+        std::ptr::write_bytes(p, fill, size);
+        ((p, size), std::slice::from_raw_parts_mut(p, size))
+    }
+}
+pub fn heap_free_raw(p: *mut u8, n: usize) {
+    if n > 0 {
+        let layout = std::alloc::Layout::from_size_align(n, 64).unwrap();
+        unsafe { std::alloc::dealloc(p, layout) };
     }
 }
 pub fn heap_free(buf: &'static mut [u8]) {
